@@ -178,6 +178,40 @@ def run_outparam_ignored(prog, ctx=None):
     return res
 
 
+def is_status_function(prog, g, _seen=None):
+    """returns one of the repo's negative error enumerators, directly or by returning the result of a callee that does"""
+    _seen = _seen if _seen is not None else set()
+    if g.key() in _seen or g.nocfg:
+        return False
+    _seen.add(g.key())
+    rvars = set()
+    for b, i, e in g.elements():
+        if e.get("k") == "ret" and e.get("e") is not None:
+            r = strip(e["e"], all_casts=True)
+            for n in walk(r):
+                if n.get("k") == "ref" and n["d"].get("dk") == "enumc" and (cval(n) or 0) < 0:
+                    return True
+                if n.get("k") == "ref" and "id" in n["d"]:
+                    rvars.add(n["d"]["id"])
+                if n.get("k") == "call" and n.get("fn", {}).get("inroot"):
+                    for c in prog.resolve_call(g, n):
+                        if is_status_function(prog, c, _seen):
+                            return True
+    # status variable assigned from a status callee
+    for b, i, n in g.walk_all():
+        if n.get("k") == "bin" and n.get("op") == "=":
+            l = strip(n["a"], lvalue_to_rvalue=False)
+            if l.get("k") == "ref" and l["d"].get("id") in rvars:
+                r = strip(n["b"], all_casts=True)
+                if r.get("k") == "ref" and r["d"].get("dk") == "enumc" and (cval(r) or 0) < 0:
+                    return True
+                if r.get("k") == "call" and r.get("fn", {}).get("inroot"):
+                    for c in prog.resolve_call(g, r):
+                        if is_status_function(prog, c, _seen):
+                            return True
+    return False
+
+
 def run_statuspolarity(prog, ctx=None):
     """STATUSPOLARITY: callees that return negative errors *and* positive success values are not tested by truthiness"""
     res = Result("STATUSPOLARITY")
@@ -232,6 +266,8 @@ def run_statuspolarity(prog, ctx=None):
             RT = g.T(g.ret)
             if RT.get("k") != "int" or not RT.get("signed"):
                 continue
+            if not is_status_function(prog, g):
+                continue      # orderings (compare functions) and counts are not statuses
             r = retsum(g)
             if r is None:
                 continue
@@ -487,4 +523,237 @@ def run_progress(prog, ctx=None):
             res.ob("%s:loop@%s" % (f.qn, norm(show(f.blocks[h].term.get("cond"), f))[:60] if f.blocks[h].term and f.blocks[h].term.get("cond") is not None else "B%d" % h),
                    ok, f, line, "" if ok else ("loop has no exit" if not conds else "no exit condition of this loop reads anything the loop changes"),
                    {"exit_reads": sorted(read)[:8], "changes": sorted(modified)[:8]})
+    return res
+
+
+def run_nullcontra(prog, ctx=None):
+    """NULLCONTRA (Engler): a pointer the function itself tests for null is not dereferenced where that test has not established non-null"""
+    res = Result("NULLCONTRA")
+    files = set(ctx.get("files", [])) if ctx else None
+    for f in funcs_of(prog, files):
+        # pointers with a null test somewhere in the function
+        tested = {}
+        for bid, b in f.blocks.items():
+            if b.term and b.term.get("cond") is not None:
+                c = b.term["cond"]
+                dc = strip(c, all_casts=True)
+                while dc.get("k") == "bin" and dc.get("op") in ("&&", "||"):
+                    dc = strip(dc["b"], all_casts=True)
+                if dc.get("k") == "bin" and dc.get("op") == "=":
+                    dc = strip(dc["a"], lvalue_to_rvalue=False)
+                if dc.get("k") == "ref" and "id" in dc["d"] and f.T(dc.get("t")).get("k") == "ptr":
+                    tested[dc["d"]["id"]] = dc["d"]["n"]      # bare pointer used as a condition (C has no bool conversion node)
+                for n in walk(c):
+                    x = None
+                    if n.get("k") == "un" and n.get("op") == "!":
+                        x = strip(n["e"], all_casts=True)
+                    elif n.get("k") == "cast" and n.get("ck") == "PointerToBoolean":
+                        x = strip(n["e"], all_casts=True)
+                    elif n.get("k") == "bin" and n.get("op") in ("==", "!=") and cval(n["b"]) == 0:
+                        x = strip(n["a"], all_casts=True)
+                    if x is not None:
+                        if x.get("k") == "bin" and x.get("op") == "=":
+                            x = strip(x["a"], lvalue_to_rvalue=False)
+                        if x.get("k") == "ref" and "id" in x["d"] and f.T(x.get("t")).get("k") == "ptr":
+                            tested[x["d"]["id"]] = x["d"]["n"]
+        if not tested:
+            continue
+        PK = Analysis.PK
+        tv = sorted(tested)
+
+        def nullkey(an, st):
+            k = []
+            for vid in tv:
+                v = st.get(("v", vid))
+                k.append("?" if v is None else ("N" if (v.lo == 0 and v.hi == 0) else ("P" if v.lo > 0 else "?")))
+            st[PK] = "".join(k)
+
+        an = Analysis(prog, f, hook=lambda an, b, i, el, st: nullkey(an, st), edge_hook=lambda an, b, c, t, st: nullkey(an, st))
+        st0 = an.entry_state()
+        nullkey(an, st0)
+        an.run(state=st0)
+        done = set()
+        for (bid, idx), parts in sorted(an.pre_parts.items()):
+            el = f.blocks[bid].el[idx]
+            addr_only = set()
+            for n in walk_own(el):
+                if n.get("k") == "un" and n.get("op") == "&":
+                    x = strip(n["e"], lvalue_to_rvalue=False)
+                    while isinstance(x, dict):
+                        addr_only.add(id(x))       # &p->f, &p->a.b, &p[i]: address arithmetic, no access
+                        if x.get("k") == "mem" and not x.get("arrow"):
+                            x = strip(x["b"], lvalue_to_rvalue=False)
+                        else:
+                            break
+            for n in walk_own(el):
+                if id(n) in addr_only:
+                    continue
+                p = None
+                if n.get("k") == "un" and n.get("op") == "*":
+                    p = n["e"]
+                elif n.get("k") == "mem" and n.get("arrow"):
+                    p = n["b"]
+                elif n.get("k") == "idx":
+                    p = n["a"]
+                if p is None:
+                    continue
+                ps = strip(p, all_casts=True)
+                if ps.get("k") != "ref" or ps["d"].get("id") not in tested:
+                    continue
+                if id(n) in done:
+                    continue
+                done.add(id(n))
+                # armed form: on some path class (trace partition on the outcome of the function's own null tests) the pointer
+                # is *known* null at the dereference.  The plain "may be null" form was tried and dropped: unknown loads and
+                # correlated guards (flags = -1 iff buf == NULL in mpt_array_reserve) make it fire on correct code.
+                ok = True
+                for pk, st in parts.items():
+                    v = an.ev(ps, dict(st), True, el)
+                    if v.lo == 0 and v.hi == 0:
+                        ok = False
+                key = "%s:%s@%s" % (f.qn, tested[ps["d"]["id"]], norm(show(n, f))[:50])
+                if not ok:
+                    res.ob(key, False, f, n.get("l", 0),
+                           "%s is null on a path that reaches this dereference (the function tested it for null and went on)" % tested[ps["d"]["id"]])
+                else:
+                    res.ob(key, True, f, n.get("l", 0))
+    return res
+
+
+COPY_APIS = {   # callee -> (index of source data, index of length)
+    "memcpy": (1, 2), "memmove": (1, 2), "mpt_buffer_set": (3, 4), "mpt_array_append": (2, 1),
+    "mpt_queue_set": (3, 2), "mpt_qpush": (2, 1), "mpt_qunshift": (2, 1), "strncpy": (1, 2), "memcmp": (1, 2),
+}
+
+
+def run_objsize(prog, ctx=None):
+    """OBJSIZE: copy calls do not read more than a source object of known size holds, and a copy with a literal
+    zero length and a real source is reported as statically dead (the repo's swapped position/length idiom)"""
+    res = Result("OBJSIZE")
+    files = set(ctx.get("files", [])) if ctx else None
+    for f in funcs_of(prog, files):
+        calls = [(b, i, e) for b, i, e in f.elements() if e.get("k") == "call" and callee_name(e) in COPY_APIS]
+        if not calls:
+            continue
+        an = None
+        for b, i, e in calls:
+            nm = callee_name(e)
+            di, li = COPY_APIS[nm]
+            args = e.get("args", [])
+            if len(args) <= max(di, li):
+                continue
+            data, ln = args[di], args[li]
+            key = "%s:%s" % (f.qn, norm(show(e, f))[:100])
+            src = strip(data, all_casts=True)
+            # known size of the source object
+            size = None
+            if src.get("k") == "str":
+                size = src.get("len", 0) + 1
+            elif src.get("k") == "un" and src.get("op") == "&":
+                OT = f.T(src["e"].get("t"))
+                if OT.get("sz") and strip(src["e"], lvalue_to_rvalue=False).get("k") in ("ref", "mem"):
+                    size = OT["sz"]
+            elif src.get("k") in ("ref", "mem") and f.T(src.get("t")).get("k") == "array":
+                size = f.T(src.get("t")).get("sz")
+            if cval(ln) == 0 and cval(data) != 0:
+                res.ob(key + ":dead", False, f, e.get("l", 0),
+                       "%s() is given a source (%s) but a constant length of 0: nothing is copied (position and length arguments swapped?)" % (nm, norm(show(data, f))))
+                continue
+            if size is None:
+                res.ob(key, True, f, e.get("l", 0))
+                continue
+            if an is None:
+                an = Analysis(prog, f).run()
+            v = an.val(b.id, i, ln)
+            ok = v is None or v.lo <= size
+            res.ob(key, ok, f, e.get("l", 0),
+                   "" if ok else "%s() reads at least %s bytes from %s which holds %d" % (nm, v.lo, norm(show(data, f)), size),
+                   {"length": v.tojson() if v else None, "source_size": size})
+    return res
+
+
+def run_lazyinit(prog, ctx=None):
+    """LAZYINIT: `if (!X || !(X = init()))` on a static X never initialises it (the assignment only runs when X is already set);
+    the working idiom is `if (!X && !(X = init()))`"""
+    res = Result("LAZYINIT")
+    files = set(ctx.get("files", [])) if ctx else None
+    for f in funcs_of(prog, files):
+        for bid, b in f.blocks.items():
+            if not b.term or b.term.get("cond") is None:
+                continue
+            c = strip(b.term["cond"], all_casts=True)
+            if c.get("k") != "bin" or c.get("op") not in ("||", "&&"):
+                continue
+            a = strip(c["a"], all_casts=True)
+            bb = strip(c["b"], all_casts=True)
+            if a.get("k") == "un" and a.get("op") == "!" and bb.get("k") == "un" and bb.get("op") == "!":
+                x = strip(a["e"], all_casts=True)
+                y = strip(bb["e"], all_casts=True)
+                if x.get("k") == "ref" and x["d"].get("dk") in ("slocal", "global") and y.get("k") == "bin" and y.get("op") == "=":
+                    l = strip(y["a"], lvalue_to_rvalue=False)
+                    if l.get("k") == "ref" and l["d"].get("id") == x["d"].get("id"):
+                        ok = c["op"] == "&&"
+                        res.ob("%s:%s" % (f.qn, norm(show(c, f))[:80]), ok, f, c.get("l", 0),
+                               "" if ok else "static %s starts as 0, `!%s ||` short-circuits before the assignment can run: this test is always true" % (x["d"]["n"], x["d"]["n"]))
+    return res
+
+
+def run_boundstale(prog, ctx=None):
+    """BOUNDSTALE: a relational bound test (`a < b`) in a loop condition reads something the loop changes;
+    a bound whose both sides are loop invariant never stops the loop it is written to stop"""
+    res = Result("BOUNDSTALE")
+    files = set(ctx.get("files", [])) if ctx else None
+    for f in funcs_of(prog, files):
+        loops = natural_loops(f)
+        for h, body in sorted(loops.items()):
+            modified = set()
+            for x in body:
+                for e in f.blocks[x].el:
+                    for n in walk_own(e):
+                        tgt = None
+                        if n.get("k") == "bin" and n["op"].endswith("=") and n["op"] not in ("==", "!=", "<=", ">="):
+                            tgt = n["a"]
+                        elif n.get("k") == "un" and n.get("op") in ("++", "--"):
+                            tgt = n["e"]
+                        elif n.get("k") == "decl":
+                            for v in n["vars"]:
+                                modified.add("v%d" % v["id"])
+                        elif n.get("k") == "call":
+                            for a in n.get("args", []):
+                                s = strip(a, all_casts=True)
+                                if s.get("k") == "un" and s.get("op") == "&":
+                                    modified |= _lv_names(f, s["e"])
+                                elif s.get("k") == "ref" and f.T(s.get("t")).get("k") == "ptr":
+                                    modified.add("v%d" % s["d"].get("id", -1))
+                                    modified.add("*" + s["d"]["n"])
+                        if tgt is not None:
+                            t = strip(tgt, lvalue_to_rvalue=False)
+                            if t.get("k") == "ref" and "id" in t["d"]:
+                                modified.add("v%d" % t["d"]["id"])
+                            else:
+                                modified |= _lv_names(f, t)
+                                modified.add("*")
+            for x in body:
+                blk = f.blocks[x]
+                if not (blk.term and blk.term.get("cond") is not None and any(s is not None and s not in body for s in blk.succ)):
+                    continue
+                if blk.term.get("cls") not in ("WhileStmt", "ForStmt", "DoStmt", "BinaryOperator"):
+                    continue
+                c = strip(blk.term["cond"], all_casts=True)
+                while c.get("k") == "bin" and c.get("op") in ("&&", "||"):
+                    c = strip(c["b"], all_casts=True)
+                if c.get("k") != "bin" or c.get("op") not in ("<", ">", "<=", ">="):
+                    continue
+                names = _lv_names(f, c)
+                if not names or any(n.get("k") in ("call", "un") and n.get("op", "*") in ("*", "++", "--") for n in walk(c) if n.get("k") in ("call",) or (n.get("k") == "un" and n.get("op") in ("++", "--", "*"))):
+                    continue
+                if "*" in modified and any("->" in nm or "." in nm for nm in names):
+                    continue
+                # globals can be changed by any callee (optind / getopt)
+                hascall = any(n.get("k") == "call" for x2 in body for e2 in f.blocks[x2].el for n in walk_own(e2))
+                if hascall and any(n.get("k") == "ref" and n["d"].get("dk") == "global" for n in walk(c)):
+                    continue
+                ok = bool(names & modified)
+                res.ob("%s:%s" % (f.qn, norm(show(c, f))[:60]), ok, f, c.get("l", 0),
+                       "" if ok else "bound test `%s` of this loop reads nothing the loop changes: it cannot end the loop once entered" % norm(show(c, f)))
     return res
